@@ -2,7 +2,9 @@ package main
 
 import (
 	"fmt"
+	"github.com/akrylysov/pogreb/zzverif/refmodel"
 	"sort"
+	"strings"
 	"time"
 
 	"github.com/akrylysov/pogreb/zzverif/explore"
@@ -71,7 +73,114 @@ func c05Scenarios(thorough bool) []*explore.Scenario {
 	for i, w := range []explore.Op{op(explore.Put, "o0"), op(explore.Put, "x"), op(explore.Delete, "o1")} {
 		scs = append(scs, &explore.Scenario{Name: fmt.Sprintf("CC-%d", i), Base: "CC", Cfg: "ROLL", Threads: []explore.ThreadProg{{op(explore.Put, "c0"), op(explore.Compact, "")}, {w}}, Bound: 2, Record: false})
 	}
+	// FC: compaction x writer x I/O fault x crash. The first creation of a segment file after Open fails once - for the
+	// writer (whose Put then returns an error) or for compaction (whose Compact then does): whatever that failure leaves
+	// behind, acknowledged writes - a Delete in particular - must survive every crash of the interleaved execution.
+	for i, w := range []explore.ThreadProg{{op(explore.Put, "n"), op(explore.Delete, "a")}, {op(explore.Put, "e"), op(explore.Delete, "b")}, {op(explore.Delete, "a"), op(explore.Put, "n")}} {
+		scs = append(scs, &explore.Scenario{Name: fmt.Sprintf("FC-S4-%d", i), Base: "S4", Cfg: "ROLL", Threads: []explore.ThreadProg{{op(explore.Compact, "")}, w}, Bound: -1, Record: true, FailSegCreate: 1})
+	}
 	return scs
+}
+
+// c05FaultConcCheck: scenarios with an injected segment-creation failure. Calls may fail with the injected error (a failed
+// write then may or may not have taken effect); everything else as in c05Check: history linearizable, contents at
+// quiescence explained by it, and for every crash image of the interleaved execution the recovered contents are the
+// writer's acknowledged writes, plus optionally the one in flight, under one of the readings of the failed writes.
+func c05FaultConcCheck(c *explore.Ctx, base *explore.Base, sc *explore.Scenario, memo recMemo) func(r *explore.ConcRun) (string, string) {
+	return func(r *explore.ConcRun) (string, string) {
+		for _, e := range r.Events {
+			if e.Err == "" || strings.Contains(e.Err, "injected") {
+				continue
+			}
+			if e.Op.Kind == explore.Compact && compactRefused(r, e) {
+				continue
+			}
+			return "op-error", fmt.Sprintf("%s in thread %d returned an error other than the injected one: %s", e.Op, e.Thread, e.Err)
+		}
+		if r.FinalMsg != "" {
+			return "final", "at quiescence: " + r.FinalMsg
+		}
+		init := map[string]string{}
+		for k, v := range base.Model {
+			init[k] = v
+		}
+		ops := r.LinOps(base.Keys)
+		ok, finals := refmodel.Linearize(init, ops)
+		if !ok {
+			return "not-linearizable", fmt.Sprintf("history is not linearizable: %v", ops)
+		}
+		match := false
+		for _, f := range finals {
+			match = match || explore.Model(f).Equal(r.Final)
+		}
+		if !match {
+			return "final-state", fmt.Sprintf("contents at quiescence match no accepting linearisation of %v", ops)
+		}
+		var wr []explore.Event
+		var failed []int
+		for _, e := range r.Events {
+			if e.Thread == 2 {
+				wr = append(wr, e)
+			}
+		}
+		sort.Slice(wr, func(i, j int) bool { return wr[i].Idx < wr[j].Idx })
+		for i, e := range wr {
+			if e.Err != "" {
+				failed = append(failed, i)
+			}
+		}
+		log := r.Sess.FS.Log
+		var cls, res string
+		simfs.CrashImages(base.Image, log, 0, len(log), func(im simfs.Image) bool {
+			c.Add("images", 1)
+			rec, fresh := memo.get(im.FS, base, explore.RecoverOpts{})
+			if fresh {
+				c.Add("recoveries", 1)
+				c.Distinct("image", explore.Hash64(sc.Base, "fc", im.FS.Hash()))
+			}
+			first := ""
+			for variant := 0; variant < 1<<uint(len(failed)); variant++ {
+				took := map[int]bool{}
+				for bi, wi := range failed {
+					took[wi] = variant&(1<<uint(bi)) != 0
+				}
+				m0, m1 := base.Model.Clone(), base.Model.Clone()
+				apply := func(m explore.Model, e explore.Event) {
+					k := string(base.Keys[e.Op.Key])
+					switch e.Op.Kind {
+					case explore.Put:
+						m[k] = e.Val
+					case explore.Delete:
+						delete(m, k)
+					}
+				}
+				for i, e := range wr {
+					if e.Err != "" && !took[i] {
+						continue
+					}
+					if e.LogPos <= im.Pos {
+						apply(m0, e)
+						apply(m1, e)
+					} else if e.LogAt < im.Pos {
+						apply(m1, e)
+						break
+					} else {
+						break
+					}
+				}
+				msg := explore.Admissible(rec, m0, m1, false, r.Sess.KeyName)
+				if msg == "" {
+					return true
+				}
+				if first == "" {
+					first = msg
+				}
+			}
+			cls, res = "crash", fmt.Sprintf("crash after %d of %d file-system calls of the interleaved execution (%s; next call %s): %s", im.Pos, len(log), im.Desc, opAt(log, im.Pos), first)
+			return false
+		})
+		return cls, res
+	}
 }
 
 // c05Check: linearizability of the writers/readers (Compact is a no-op of the model), scan truthfulness,
@@ -344,6 +453,9 @@ func runC05(c *explore.Ctx) {
 		if memos[sc.Base] == nil {
 			memos[sc.Base] = recMemo{}
 			lvl2[sc.Base] = map[string]string{}
+		}
+		if sc.FailSegCreate > 0 {
+			return c05FaultConcCheck(c, base, sc, memos[sc.Base])
 		}
 		return c05Check(c, base, sc, memos[sc.Base], lvl2[sc.Base])
 	})
